@@ -41,7 +41,7 @@ func (s *memMetaStore) Put(ctx context.Context, p peer.ID, v []byte) error {
 
 const (
 	c12RawKinds     = 12
-	c12HostileKinds = 34
+	c12HostileKinds = 36
 )
 
 func genC12(seed uint64, tier string) *Plan {
@@ -65,6 +65,8 @@ func genC12(seed uint64, tier string) *Plan {
 	p.Knobs["behaviour_weight"] = float64(-b2i(r.chance(0.5)))
 	p.Knobs["hb_ms"] = 1000
 	p.Knobs["workers"] = float64(r.rng(1, 2))
+	p.Knobs["seen_ttl_ms"] = float64([]int{0, 0, 2000}[r.intn(3)])
+	p.Knobs["queue_size"] = float64([]int{2, 4, 32}[r.intn(3)])
 	// protocol limits as tuning knobs: small values put the boundary cases within reach
 	p.Knobs["max_ihave_len"] = float64([]int{2, 3, 5, 5000}[r.intn(4)])
 	p.Knobs["max_ihave_msgs"] = float64([]int{1, 2, 10}[r.intn(3)])
@@ -99,6 +101,37 @@ func genC12(seed uint64, tier string) *Plan {
 		i := int64(1 + r.intn(np))
 		x := r.intn(100)
 		switch {
+		case x < 3:
+			// the peer kills the node's outbound stream again and again while staying connected (the
+			// node gives up after MaxBackoffAttempts), then makes the router answer it
+			for c := r.rng(4, 7); c > 0; c-- {
+				add("reset-in", i)
+				add("adv", int64(r.rng(900, 2500)))
+			}
+			add([]string{"graft", "sub"}[r.intn(2)], i, int64(r.intn(2)))
+			add("hostile", i, int64(r.intn(c12HostileKinds)), int64(r.intn(1<<20)))
+			add("node-sub", int64(r.intn(2)))
+			add("probe")
+		case x < 6:
+			// a message comes back after the seen window has forgotten it, then once more as a duplicate
+			add("pub", i, 0, int64(r.rng(8, 100)))
+			add("adv", int64(r.rng(62000, 70000)))
+			add("resend", i, 0)
+			add("resend", int64(1+r.intn(np)), 0) // (not the honest peer: the message may exceed the size limit)
+			add("probe")
+		case x < 9:
+			// the peer stops reading, traffic fills its queue, the application changes its subscriptions
+			add("stall", i, 1)
+			for c := r.rng(3, 8); c > 0; c-- {
+				add("node-pub", 0, int64(r.rng(8, 200)))
+			}
+			add("node-sub", 1)
+			add("adv", int64(r.rng(1100, 2500)))
+			add("probe")
+			add("node-cancel", int64(r.intn(3)))
+			add("adv", int64(r.rng(1100, 2500)))
+			add("probe")
+			add("stall", i, 0)
 		case x < 45:
 			add("hostile", i, int64(r.intn(c12HostileKinds)), int64(r.intn(1<<20)))
 		case x < 60:
@@ -197,7 +230,7 @@ func runC12(s *sim) {
 		h := w.fake(0)
 		if h == nil || !h.outAlive() {
 			s.probe("honest_stream_gone")
-			if h != nil && h.connected() {
+			if h != nil && h.connected() && h.out != nil {
 				s.violate("C12", "containment", "C12/containment/honest-stream-reset", "the honest peer's inbound stream was closed by the node after %s", why)
 			}
 			return
@@ -643,6 +676,15 @@ func c12Hostile(w *nodeWorld, fp *fakePeer, kind int, x int64) *pb.RPC {
 			ids = append(ids, big(r.rng(1, 40)))
 		}
 		return &pb.RPC{Control: &pb.ControlMessage{Idontwant: []*pb.ControlIDontWant{{MessageIDs: ids}, {MessageIDs: ids}}}}
+	case 34: // "signed" message whose author is a well-formed identity multihash over bytes that are no key
+		garbage := [][]byte{{0xde, 0xad, 0xbe, 0xef, 0x00, 0x01}, {}, {0x08, 0x01}, {0x08, 0x01, 0x12, 0x20}, r.bytes(r.rng(1, 40))}[r.intn(5)]
+		from := append([]byte{0x00, byte(len(garbage))}, garbage...)
+		m := &pb.Message{Data: w.mkData(16), Topic: &topic, From: from, Seqno: fp.nextSeqno(), Signature: r.bytes([]int{0, 1, 64}[r.intn(3)])}
+		return rpcPub(m)
+	case 35: // the same with a key field that does not parse / parses to another kind of key
+		from := append([]byte{0x00, 0x06}, 0xde, 0xad, 0xbe, 0xef, 0x00, 0x01)
+		m := &pb.Message{Data: w.mkData(16), Topic: &topic, From: from, Seqno: fp.nextSeqno(), Signature: r.bytes(64), Key: [][]byte{{}, {0x08, 0x01, 0x12, 0x00}, r.bytes(20)}[r.intn(3)]}
+		return rpcPub(m)
 	default: // extension handshake claiming everything + immediate partial
 		rpc := rpcExtensions(true, true)
 		rpc.Partial = &pb.PartialMessagesExtension{TopicID: &topic, GroupID: r.bytes(3), PartialMessage: r.bytes(10)}
